@@ -18,11 +18,11 @@ from .. import gen, model as M, refmodel as R
 QUERIES = ["edge.calc_error", "edge.calc_chi2", "edge.calc_jacobians", "BaseEdge.calc_jacobians(numerical)", "edge.calc_chi2_gradient_hessian", "graph.calc_chi2",
            "graph._calc_chi2_gradient_hessian", "pose.equals", "vertex.equals", "edge.equals", "graph.equals", "graph.to_g2o", "vertex.to_g2o", "edge.to_g2o", "pose.operators",
            "pose.jacobians", "pose.accessors", "pose.copy-independence", "edge.is_valid"]
-RULE = ("cases from rng(seed, 15, 0, i): a cluster graph (all pose types, parallel edges, landmarks with offsets, custom edges with numerical Jacobians) and a history of "
+RULE = ("cases from rng(seed, 15, 0, i): a cluster graph (all pose types, parallel edges, landmarks with offsets, custom edges with numerical Jacobians; every 5th graph has no fixed vertex and is anchored by pose priors) and a history of "
         "20..50 calls drawn from " + ", ".join(QUERIES) + " plus optimize(max_iter 1..3); snapshot compared around each call. distinct = fingerprint(spec, history); "
         "non-trivial = history with >= 1 numerical-Jacobian call on an SE(2)/SE(3) vertex and >= 1 optimize run.")
 REQ = ["eval:query-leaves-state-unchanged", "eval:repeat-returns-identical", "eval:optimize-changes-only-poses", "eval:operands-unchanged", "eval:copy-independent"] + ["query:" + q for q in QUERIES] + [
-    "class:numerical_jacobian_on_SE_vertex", "class:parallel_edges"]
+    "class:numerical_jacobian_on_SE_vertex", "class:parallel_edges", "class:no_fixed_vertex_prior_anchored"]
 PLAN = {
     "quick": {"cases": 480, "soft_s": 80, "min_nontrivial": 150, "require": REQ},
     "thorough": {"cases": 24000, "soft_s": 1400, "min_nontrivial": 6000, "require": REQ},
@@ -165,7 +165,10 @@ def do_query(q, g, g_other, rng, scratch):
     k = M.kind(v.pose)
     if q == "pose.operators":
         d = np.array([0.01 * (j + 1) for j in range(R.CD[k])])
+        if k == "se3" and rng.random() < 0.4:
+            d[3:] = [0.9, -0.8, 0.7]  # rotational part of norm > 1: clamped to the identity rotation by the library (a legitimate call)
         pt = np.array([0.5, -0.25, 0.125][: {"r2": 2, "r3": 3, "se2": 2, "se3": 3}[k]])
+        info["arrays"] = [(d, d.copy()), (pt, pt.copy())]
 
         def f():
             out = [v.pose + u.pose, v.pose - u.pose, v.pose.inverse, v.pose + d, v.pose + pt if k in ("se2", "se3") else v.pose + M.mkpose(k, list(pt)), v.pose.copy()]
@@ -200,7 +203,10 @@ def do_query(q, g, g_other, rng, scratch):
 
 
 def run_case(ctx, i, rng):
-    spec, labels = gen.cluster_graph(rng, size=(2, 5), numeric_custom=True if i % 2 else None)
+    nofix = bool(i % 5 == 0)
+    spec, labels = gen.cluster_graph(rng, size=(2, 5), numeric_custom=True if i % 2 else None, fix_mode=("none_prior" if nofix else None))
+    if nofix:
+        ctx.count("class:no_fixed_vertex_prior_anchored")
     g = M.build(spec)
     g_other = M.build(spec)
     if "parallel_edges" in labels:
@@ -252,7 +258,8 @@ def run_case(ctx, i, rng):
             ctx.check("repeat-returns-identical", canon_equal(r1, r2), {"query": q}, {"first": str(r1)[:300], "second": str(r2)[:300], "history": hist[-6:]}, case)
             if op_objs:
                 same = all(nums_equal(b4, tuple(M.fl(p)), se2=isinstance(p, M.PoseSE2)) for b4, p in zip(ops_before, op_objs))
-                ctx.check("operands-unchanged", same, {"query": q}, {"history": hist[-6:]}, case)
+                same = same and all(np.array_equal(arr, keep) for arr, keep in info.get("arrays", []))
+                ctx.check("operands-unchanged", same, {"query": q}, {"history": hist[-6:], "array_operands": [(a.tolist(), b.tolist()) for a, b in info.get("arrays", [])]}, case)
             if q == "pose.copy-independence":
                 ctx.check("copy-independent", not d, {"query": q}, {"differences": d[:5]}, case)
             if q == "BaseEdge.calc_jacobians(numerical)" and info.get("se_vertex"):
